@@ -714,6 +714,35 @@ func applyRetain(p *Prog, r *Report, rule string, short, recv, method string, sp
 			return true
 		})
 	}
+	// … or in an extracted helper that stores the rebuilt list itself ("r.dropEntity(entity)")
+	if fd, pk := p.FuncDecl(short, recv, method); fd != nil && fd.Body != nil {
+		seenHelper := map[types.Object]bool{}
+		ast.Inspect(fd.Body, func(nd ast.Node) bool {
+			call, ok := nd.(*ast.CallExpr)
+			if !ok {
+				return true
+			}
+			o := calleeObj(pk.TypesInfo, call)
+			if o == nil || o.Exported() || o.Pkg() == nil || o.Pkg() != pk.Types || seenHelper[o] {
+				return true
+			}
+			seenHelper[o] = true
+			for _, file := range pk.Syntax {
+				for _, d := range file.Decls {
+					hd, ok := d.(*ast.FuncDecl)
+					if !ok || pk.TypesInfo.Defs[hd.Name] != o || hd == fd {
+						continue
+					}
+					for _, hl := range FindRetainLoops(p, pk, hd, short+"."+hd.Name.Name) {
+						if hl.Field == spec.Field {
+							loops = append(loops, hl)
+						}
+					}
+				}
+			}
+			return true
+		})
+	}
 	n := 0
 	for _, rl := range loops {
 		if rl.Field != spec.Field {
